@@ -21,16 +21,22 @@ Surfaces == {"validate", "start", "reload", "sigreload"}
 \* configuration kinds and the stage at which they fail
 ParseFail == {"syntax", "import_missing"}
 EarlySetupFail == {"badarg_timeouts", "badarg_tls"}                     \* directives before 'on'
+\* (setup_panic: a directive's setup function panics; Restart recovers it - only on the reload surfaces)
 LateSetupFail == {"unknown_directive_arg", "badarg_gzip", "badarg_proxy", "htpasswd_missing",
-                  "htpasswd_malformed", "badarg_errors"}                \* directives after 'on'
+                  "htpasswd_malformed", "badarg_errors", "setup_panic"} \* directives after 'on'
 StartupFail == {"failstartup", "log_unwritable"}
 \* listen_busy: the second site's TCP port is held by somebody else; listen_busy_udp: QUIC is on and the
 \* UDP port of the first (TLS) site is held - its TCP listener has been obtained by then
 ListenFail == {"listen_busy", "listen_busy_udp"}
-Kinds == {"ok"} \cup ParseFail \cup EarlySetupFail \cup LateSetupFail \cup StartupFail \cup ListenFail
+\* loader_fail: the Casketfile loader of a SIGUSR1 reload cannot produce the file (it is unreadable):
+\* the handler gives up before it has touched anything
+LoadFail == {"loader_fail"}
+Kinds == {"ok"} \cup ParseFail \cup EarlySetupFail \cup LateSetupFail \cup StartupFail \cup ListenFail \cup LoadFail
 UsesHtpasswd == {"htpasswd_missing", "htpasswd_malformed"}
 
-Attempts == {[s |-> s, k |-> kd] : s \in Surfaces, kd \in Kinds}
+Attempts == {a \in {[s |-> s, k |-> kd] : s \in Surfaces, kd \in Kinds} :
+                /\ (a.k = "loader_fail" => a.s = "sigreload")
+                /\ (a.k = "setup_panic" => a.s \in {"reload", "sigreload"})}
 
 VARIABLES
     hist,     \* attempts made so far
@@ -60,9 +66,9 @@ Call(a) ==
     /\ hist' = Append(hist, a) /\ att' = a
     /\ snap' = Globals
     \* Start / Restart put the new instance into the instance list first
-    /\ insts' = IF a.s = "validate" THEN insts ELSE insts + 1
-    /\ hooks' = IF a.s = "sigreload" THEN 0 ELSE hooks
-    /\ pc' = "parse" /\ res' = "none"
+    /\ insts' = IF a.s = "validate" \/ a.k \in LoadFail THEN insts ELSE insts + 1
+    /\ hooks' = IF a.s = "sigreload" /\ a.k \notin LoadFail THEN 0 ELSE hooks      \* purged once the file is there
+    /\ pc' = (IF a.k \in LoadFail THEN "fail" ELSE "parse") /\ res' = "none"
     /\ UNCHANGED <<bound, htlock, basegen, extra>>
 
 Parse ==
